@@ -13,7 +13,7 @@ RULE = (
     "while the worker sleeps on a longer one, completion / user cancel || partition, concurrent first f_timeout calls) with every "
     "single pre-emption placement. Oracle per future with deadline window [delegate-submit-return, submit-return] + timeout: no "
     "cancel() from the timeout thread before the window; if still pending at the deadline exactly one arrives, inside the window "
-    "(+0.01 s); none if it finished before; outcomes of futures finished in time are kept. Non-trivial = >=2 distinct deadlines with "
+    "(+0.01 s); none if it finished before; outcomes of futures finished in time are kept. One of the catalogue programs is swept once more with every bytecode instruction of timeout.py as a scheduling point. Non-trivial = >=2 distinct deadlines with "
     "a shorter one submitted while the worker sleeps on a longer one, or a completion within one tick of a deadline. Distinct = digest of the case."
 )
 ASSUMPTIONS = ["exact clock mode; tolerance 0.01 s; a completion at exactly the deadline instant may go either way"]
@@ -82,6 +82,8 @@ def catalog():
         "threads": [[["expr", "f0", ["f_timeout", ["src", "a0"], 2.0]]], [["expr", "f1", ["f_timeout", ["src", "a1"], 1.0]]],
                     [["sleep", 0.5], ["expr", "f2", ["f_timeout", ["src", "a2"], 0.25]], ["sleep", 1.0], ["complete", "a0", "value", 1]]],
         "settle": 3.0, "final": [["state", "f0"], ["state", "f1"], ["state", "f2"]]}}
+    # the same small program with EVERY bytecode instruction of timeout.py as a scheduling point
+    out["instr/O2-completion-vs-partition"] = dict(out["O2/completion-vs-partition"], instr_points=["timeout.py"])
     return out
 
 
@@ -288,7 +290,9 @@ def run_shard(spec, ctx):
         for name in spec["entries"]:
             ent = cat[name]
             extra = {"default": ent.get("default"), "ft": ent.get("ft", False), "throttled": ent.get("throttled"), "entry": name, "max_vtime": 300}
-            progs.sweep(ctx, ent["prog"], name, evaluate, account, double=spec.get("double"), extra=extra)
+            if ent.get("instr_points"):
+                extra["instr_points"] = ent["instr_points"]
+            progs.sweep(ctx, ent["prog"], name, evaluate, account, double=spec.get("double") and not ent.get("instr_points"), extra=extra)
     else:
         progs.random_search(ctx, spec, case_strategy(), evaluate, account)
 
